@@ -20,6 +20,7 @@ let c05_event (tok : string) : unit event =
   | 'D' -> EvDetectOn
   | 'T' -> EvHoldTimer
   | 'g' -> EvDrag (nat_of_int (int_of_string rest))
+  | 'u' -> EvApiUpload ([], rest = "1")   (* UploadFiles API; the paths themselves are never observable *)
   | _ -> failwith "event"
 
 let c05_obs = function
